@@ -77,6 +77,9 @@ package paths
 //@   ensures[C12] isStr(value) ==> err == nil && isStr(result)
 //@   ensures[C12] isStr(value) && !hasprefix(asStr(value), "~") && isAbs(asStr(value)) ==> result == value
 //@   ensures[C12] isStr(value) && asStr(value) == "" ==> asStr(result) == ""
+// "a leading ~ expands to the user's home directory": absoluteness is decided on the EXPANDED value, and a value
+// that is absolute once expanded is returned in its expanded form (res_ExpandUser_1: what ExpandUser returned here)
+//@   ensures[C12] isStr(value) && isAbs(res_ExpandUser_1) ==> asStr(result) == res_ExpandUser_1
 //@   ensures[C01,C12] !isStr(value) && !isList(value) ==> err != nil && result == nil
 //@   ensures[C12] isList(value) && err == nil ==> result == value
 //@   ensures[C01] err == nil ==> wf(result)
